@@ -130,6 +130,9 @@ Lemma tie_handler_partition :
   handlers_with_routes Gen_attrpolicy.handlers = by_name_handlers /\
   handlers_without_routes Gen_attrpolicy.handlers = whole_object_handlers.
 Proof. split; reflexivity. Qed.
+Lemma tie_cmp_route :
+  Gen_attrpolicy.cmp_ops = (if Gen_attrpolicy.cmp_ops_restricted then cmp_names else []).
+Proof. reflexivity. Qed.
 Lemma tie_pickle_gate : Gen_attrpolicy.pickle_gate = "allow_pickle"%string /\ Gen_attrpolicy.pickle_refusal = "ValueError"%string.
 Proof. split; reflexivity. Qed.
 (* class Service: no read hook, write and delete hooks that only raise AttributeError; nothing else under rpyc/ defines
@@ -376,21 +379,21 @@ Qed.
 
 (* ------------------------------------------------------------------ 4. every route to an attribute is checked *)
 Lemma route_perm_sound r p : route_perm r = Some p ->
-  r = match p with
-      | PGet => RAccess "_rpyc_getattr" "allow_getattr" "getattr"
-      | PSet => RAccess "_rpyc_setattr" "allow_setattr" "setattr"
-      | PDel => RAccess "_rpyc_delattr" "allow_delattr" "delattr"
+  exists t, r = match p with
+      | PGet => RAccess t "_rpyc_getattr" "allow_getattr" "getattr"
+      | PSet => RAccess t "_rpyc_setattr" "allow_setattr" "setattr"
+      | PDel => RAccess t "_rpyc_delattr" "allow_delattr" "delattr"
       end%string.
 Proof.
-  destruct r as [o q d| |]; simpl; try discriminate.
+  destruct r as [t o q d| |]; simpl; try discriminate.
   destruct (String.eqb o "_rpyc_getattr" && String.eqb q "allow_getattr" && String.eqb d "getattr") eqn:A.
-  { intros [= <-]. apply andb_true_iff in A as [A A3]. apply andb_true_iff in A as [A1 A2].
+  { intros [= <-]. exists t. apply andb_true_iff in A as [A A3]. apply andb_true_iff in A as [A1 A2].
     apply String.eqb_eq in A1, A2, A3. now subst. }
   destruct (String.eqb o "_rpyc_setattr" && String.eqb q "allow_setattr" && String.eqb d "setattr") eqn:B.
-  { intros [= <-]. apply andb_true_iff in B as [B B3]. apply andb_true_iff in B as [B1 B2].
+  { intros [= <-]. exists t. apply andb_true_iff in B as [B B3]. apply andb_true_iff in B as [B1 B2].
     apply String.eqb_eq in B1, B2, B3. now subst. }
   destruct (String.eqb o "_rpyc_delattr" && String.eqb q "allow_delattr" && String.eqb d "delattr") eqn:C; try discriminate.
-  intros [= <-]. apply andb_true_iff in C as [C C3]. apply andb_true_iff in C as [C1 C2].
+  intros [= <-]. exists t. apply andb_true_iff in C as [C C3]. apply andb_true_iff in C as [C1 C2].
   apply String.eqb_eq in C1, C2, C3. now subst.
 Qed.
 Lemma perms_eqb_sound a : forall b, perms_eqb a b = true -> a = b /\ Forall (fun x => x <> None) a.
@@ -399,11 +402,37 @@ Proof.
   apply andb_true_iff in H as [H1 H2]. destruct (IH _ H2) as [-> F].
   destruct x as [[]|], y as [[]|]; simpl in H1; try discriminate; (split; [reflexivity | constructor; [discriminate|exact F]]).
 Qed.
+Lemma targets_eqb_sound a : forall b, targets_eqb a b = true -> a = b.
+Proof.
+  induction a as [|x a IH]; intros [|y b]; simpl; intros H; try discriminate; [reflexivity|].
+  apply andb_true_iff in H as [H1 H2]. rewrite (IH _ H2).
+  destruct x as [x|], y as [y|]; simpl in H1; try discriminate. apply Bool.eqb_prop in H1. now subst.
+Qed.
 Lemma routes_checked (t : htable) : routes_ok t = true -> forall h rs, In (h, rs) t ->
-  handler_perms t h = expected_perms h /\ Forall (fun x => x <> None) (handler_perms t h).
+  handler_perms t h = expected_perms h /\ Forall (fun x => x <> None) (handler_perms t h) /\
+  handler_targets t h = expected_targets h.
 Proof.
   unfold routes_ok. intros H h rs Hin. rewrite forallb_forall in H. specialize (H _ Hin). simpl in H.
-  now apply perms_eqb_sound.
+  apply andb_true_iff in H as [H1 H2]. destruct (perms_eqb_sound _ _ H1) as [A B].
+  repeat split; auto. now apply targets_eqb_sound.
+Qed.
+
+(* the cmp route: served names when the accessor is restricted to the comparison protocol; and, when it is not, a method
+   reached by name although the object's own hook -- which decides on every other route -- was never asked *)
+Lemma cmp_restricted_only_comparisons g c p ty final :
+  decide_cmp true g c p ty = Ok (ViaDefault final) -> In final (map text_of_string cmp_names).
+Proof.
+  unfold decide_cmp. destruct (decide g c PGet p ty) as [[n|f]| | |]; try discriminate.
+  destruct (mem f (map text_of_string cmp_names)) eqn:M; cbn [andb negb]; try discriminate.
+  intros [= <-]. now apply mem_In.
+Qed.
+Lemma cmp_hook_never_asked r g c p ty : decide_cmp r g c p ty = Ok (ViaHook (text_of p)) -> hook_get ty = true.
+Proof.
+  unfold decide_cmp, decide, access_attr. destruct (hook_for ty PGet) eqn:Hk; [intros _; exact Hk|].
+  destruct (nkind_of p); simpl; try discriminate;
+    destruct (check_attr (sw c) PGet (nonempty (exposed_prefix c)) (nview_of c (text_of p)) (oview_of c (text_of p) ty)) as [[]| | |];
+    simpl; try discriminate;
+    match goal with |- context [if ?b then _ else _] => destruct b end; discriminate.
 Qed.
 
 (* ------------------------------------------------------------------ 5. isolation between connections *)
